@@ -346,8 +346,6 @@ def run(run):
 # float thresholds on the conversion path that were read and accepted: (function, operator, constant) -> reason
 REVIEWED_THRESHOLDS = {
     ("util::is_collinear", "Lt", 0.01): "Heron area of the triangle below 0.01: distances are translation invariant in exact arithmetic; the float residue is the declared undecided part (long diagonals)",
-    ("CircleArt::is_shared_x", "Eq", 1.0): "table initialiser on exact halves (input independent)",
-    ("CircleArt::is_shared_y", "Eq", 1.0): "table initialiser on exact halves (input independent)",
 }
 
 
@@ -360,8 +358,22 @@ def p4(run):
     from ..mirlib import op_const
     prog = run.prog
     roots, reach = lib_reachable(run, "C06.P4")
+    # comparisons that only run while a static table is initialised see no value derived from the input (C07.D2): they
+    # cannot depend on where a drawing sits, whatever helper they are moved into
+    E_ = prog.edges()
+    direct, work = set(), list(roots)
+    while work:
+        x = work.pop()
+        if x in direct or x not in prog.bodies:
+            continue
+        direct.add(x)
+        for y in E_.get(x, ()):
+            if y not in prog.statics:
+                work.append(y)
     n = 0
     for p in sorted(reach):
+        if p not in direct:
+            continue
         b = prog.bodies[p]
         for blk in b["blocks"]:
             if blk["cleanup"]:
